@@ -1,6 +1,9 @@
 package main
 
 import (
+	"os"
+	"path/filepath"
+	"regexp"
 	"strings"
 
 	"sigs.k8s.io/kustomize/kyaml/openapi"
@@ -336,4 +339,42 @@ func hasAlias(n *kyaml.Node) bool {
 		}
 	})
 	return found
+}
+
+// knownClasses reads the finding classes recorded for a property (known-findings.txt, findings.d/*.txt).
+func knownClasses(prop string) map[string]bool {
+	out := map[string]bool{}
+	files, _ := filepath.Glob(filepath.Join(verifRoot(), "findings.d", "*.txt"))
+	files = append(files, filepath.Join(verifRoot(), "known-findings.txt"))
+	re := regexp.MustCompile(`^finding:\s+property=(\S+)\s+class=(\S+)`)
+	for _, f := range files {
+		data, err := os.ReadFile(f)
+		if err != nil {
+			continue
+		}
+		for _, line := range strings.Split(string(data), "\n") {
+			if m := re.FindStringSubmatch(strings.TrimSpace(line)); m != nil && m[1] == prop {
+				out[m[2]] = true
+			}
+		}
+	}
+	return out
+}
+
+// resolveSchema mirrors Walker.GetSchema at the root: the schema of the FIRST source whose
+// kind/apiVersion the openapi package knows (sources whose version is unknown are skipped).
+func resolveSchema(srcs ...*kyaml.RNode) (*openapi.ResourceSchema, string, string) {
+	for _, s := range srcs {
+		if s == nil {
+			continue
+		}
+		m, _ := s.GetMeta()
+		if m.Kind == "" || m.APIVersion == "" {
+			continue
+		}
+		if rs := openapi.SchemaForResourceType(kyaml.TypeMeta{Kind: m.Kind, APIVersion: m.APIVersion}); rs != nil {
+			return rs, m.Kind, m.APIVersion
+		}
+	}
+	return nil, "", ""
 }
